@@ -270,8 +270,8 @@ def expected_spliced(blocks, strand, ps):
     """brute force from the plain genome string: the 5'->3' sequence of the part of the blocks inside the window
     (None without sequence; "" when nothing is inside)"""
     w = window_of(ps)
-    if w is None:
-        return None
+    if w is None or strand == "UNSTRANDED":
+        return None                    # an unstranded location has no 5'->3' sequence (the library refuses)
     g = G.genome(max(ps["genome_len"], w[1]))
     parts = [g[max(s, w[0]):min(e, w[1])] for s, e in blocks if max(s, w[0]) < min(e, w[1])]
     seq = "".join(parts)
